@@ -1,5 +1,6 @@
 import GraafVerif.Driver.Common
 import GraafVerif.Driver.H01
+import GraafVerif.Model.Conv
 /-!
 # Driver handlers for C20: `eq_pair <repr> [<startA> <opsA>] [<startB> <opsB>] <mut>`
 
@@ -27,19 +28,57 @@ def ordToV : Ordering → V
   | .eq => .a "equal"
   | .gt => .a "greater"
 
+/-- How a side's start digraph came out: built, a `From` conversion that panics (`refused`, only
+for `[from src]` starts), or a description the builders reject (the whole line panics). -/
+inductive St (σ : Type) where
+  | built (s : σ)
+  | refused
+  | panic
+
+def St.ofOpt {σ : Type} : Option σ → St σ
+  | some s => .built s
+  | none => .panic
+
+def consTrue : V := .l [V.ofBool true, V.ofBool true, V.ofBool true, V.ofBool true]
+
 /-- The model's rendering of the whole output. `obsHashEq` = what the implementation said about
-the hashes (used only when the structures differ). -/
+the hashes (used only when the structures differ).  The consistency elements are all `true` in the
+model: a model structure is canonical (C20 `Determined`), so draining it gives the empty structure
+and rebuilding it from what it shows gives the identical structure. -/
 def modelPair {σ : Type} [DecidableEq σ] (vw : View σ) (cmp : σ → σ → Ordering)
-    (a0 b0 : Option σ) (opsA opsB : List HOp) (m : HOp) (obsHashEq : V) : Option (List V) := do
-  let a ← replay vw (← a0) opsA
-  let b ← replay vw (← b0) opsB
-  let eq := decide (a = b)
-  let head := V.l [V.ofBool eq, ordToV (cmp a b), if eq then V.ofBool true else obsHashEq]
-  let (c, ret) ← vw.step a m
-  let (b', ret2) ← vw.step b m
-  pure [head, obs3 vw a, obs3 vw b,
-        .l [V.ofBool true, outToV ret, obs3 vw a, obs3 vw c],
-        .l [V.ofBool true, outToV ret2, obs3 vw b', obs3 vw b]]
+    (a0 b0 : St σ) (opsA opsB : List HOp) (m : HOp) (obsHashEq : V) : Option (List V) :=
+  match a0, b0 with
+  | .panic, _ | _, .panic => none
+  | .refused, .built _ => some [.l [.a "refused", .a "a"]]
+  | .built _, .refused => some [.l [.a "refused", .a "b"]]
+  | .refused, .refused => some [.l [.a "refused", .a "ab"]]
+  | .built a0, .built b0 => do
+    let a ← replay vw a0 opsA
+    let b ← replay vw b0 opsB
+    let eq := decide (a = b)
+    let head := V.l [V.ofBool eq, ordToV (cmp a b), if eq then V.ofBool true else obsHashEq]
+    let (c, ret) ← vw.step a m
+    let (b', ret2) ← vw.step b m
+    pure [head, obs3 vw a, obs3 vw b,
+          .l [V.ofBool true, outToV ret, obs3 vw a, obs3 vw c],
+          .l [V.ofBool true, outToV ret2, obs3 vw b', obs3 vw b], consTrue, consTrue]
+
+/-- What a source description shows through `order()` / `arcs()` (input of the `From` macro body). -/
+def srcShow (d : GDesc) : Option (Nat × List (Nat × Nat)) :=
+  match d.repr with
+  | "al" => (buildAL d).map (fun g => (g.order, g.arcs))
+  | "am" => (buildAM d).map (fun g => (g.order, g.arcs))
+  | "mx" => (buildMX d).map (fun g => (g.order, g.arcs))
+  | "el" => (buildEL d).map (fun g => (g.order, g.arcs))
+  | _ => none
+
+/-- A `[from src]` start: the `Conv` model of the `From` impl (C16) decides accepted / refused. -/
+def fromStart {σ : Type} (conv : Nat → List (Nat × Nat) → Option σ) (src : GDesc) : St σ :=
+  match srcShow src with
+  | none => .panic
+  | some (n, arcs) => match conv n arcs with
+    | some g => .built g
+    | none => .refused
 
 def specSide (d : GDesc) (ops : List HOp) (m : HOp) : Option (V × Out × V) := do
   let s0 ← LSpecD.ofDesc d
@@ -48,26 +87,47 @@ def specSide (d : GDesc) (ops : List HOp) (m : HOp) : Option (V × Out × V) := 
   let (s', ret) ← vw.step s m
   pure (obs3 vw s, ret, obs3 vw s')
 
-def oracle (obs : List V) (da db : GDesc) (opsA opsB : List HOp) (m : HOp) : Option String :=
+/-- Implementation-only clauses: they use nothing but the implementation's own output. -/
+def oracleImpl (obs : List V) : Option String :=
   match obs with
-  | [.l [eq, cmp, heq], oa, ob, .l [ceq, ret, oa', oc], .l [ceq2, ret2, ob', oc2]] =>
-    match specSide da opsA m, specSide db opsB m with
-    | some (sa, sret, sa'), some (sb, sret2, sb') =>
-      let same := oa == ob
-      if eq != V.ofBool same then some s!"== is {eq} but observations equal = {same}"
-      else if same && heq != V.ofBool true then some "equal digraphs hash differently"
-      else if same && cmp != V.a "equal" then some s!"equal digraphs compare {cmp}"
-      else if oa != sa then some s!"A disagrees with the arc-set spec: {(toString sa).take 300}"
-      else if ob != sb then some s!"B disagrees with the arc-set spec: {(toString sb).take 300}"
-      else if ceq != V.ofBool true || ceq2 != V.ofBool true then some "clone != original"
-      else if oa' != oa then some "mutating the clone changed the original"
-      else if oc2 != ob then some "mutating the original changed the clone"
-      else if ret != outToV sret || oc != sa' then some s!"mutated clone wrong: spec {outToV sret} {(toString sa').take 300}"
-      else if ret2 != outToV sret2 || ob' != sb' then some s!"mutated original wrong: spec {outToV sret2} {(toString sb').take 300}"
-      else none
-    | _, _ => none  -- a start description the spec rejects: nothing is claimed (the model must agree)
-  | [.a "panic"] => none  -- the build panicked: correspondence only
+  | [.l [eq, cmp, heq], oa, ob, .l [ceq, _, oa', _], .l [ceq2, _, _, oc2], consA, consB] =>
+    let same := oa == ob
+    if eq != V.ofBool same then some s!"== is {eq} but observations equal = {same}"
+    else if same && heq != V.ofBool true then some "equal digraphs hash differently"
+    else if same && cmp != V.a "equal" then some s!"equal digraphs compare {cmp}"
+    else if consA != consTrue then some s!"A is not the digraph it shows: [drained==empty rebuilt== hash cmp] = {consA}"
+    else if consB != consTrue then some s!"B is not the digraph it shows: [drained==empty rebuilt== hash cmp] = {consB}"
+    else if ceq != V.ofBool true || ceq2 != V.ofBool true then some "clone != original"
+    else if oa' != oa then some "mutating the clone changed the original"
+    else if oc2 != ob then some "mutating the original changed the clone"
+    else none
+  | [.l [.a "refused", _]] => none   -- whether a conversion must be refused is the model's (C16) business
+  | [.a "panic"] => none             -- the build panicked: correspondence only
   | _ => some "malformed output"
+
+/-- Spec clauses for the sides whose description is meaningful (`useA` / `useB`). -/
+def oracle (obs : List V) (da db : GDesc) (opsA opsB : List HOp) (m : HOp) (useA useB : Bool) : Option String :=
+  match oracleImpl obs with
+  | some why => some why
+  | none =>
+    match obs with
+    | [_, oa, ob, .l [_, ret, _, oc], .l [_, ret2, ob', _], _, _] =>
+      let chkA : Option String := if !useA then none else
+        match specSide da opsA m with
+        | some (sa, sret, sa') =>
+          if oa != sa then some s!"A disagrees with the arc-set spec: {(toString sa).take 300}"
+          else if ret != outToV sret || oc != sa' then some s!"mutated clone wrong: spec {outToV sret} {(toString sa').take 300}"
+          else none
+        | none => none
+      let chkB : Option String := if !useB then none else
+        match specSide db opsB m with
+        | some (sb, sret2, sb') =>
+          if ob != sb then some s!"B disagrees with the arc-set spec: {(toString sb).take 300}"
+          else if ret2 != outToV sret2 || ob' != sb' then some s!"mutated original wrong: spec {outToV sret2} {(toString sb').take 300}"
+          else none
+        | none => none
+      chkA.orElse (fun _ => chkB)
+    | _ => none
 
 /-- How a start digraph may be produced before it is fixed up (by the harness, with plain calls)
 to the described digraph: conversions, generators, digraph-returning operations.  Whatever the
@@ -80,43 +140,73 @@ def viaKinds : List String :=
 /-- `[desc ops]` or `[desc ops via]` (`via`: the start was built in another representation and
 converted with `From`; a conversion preserves the abstract digraph — C16 — so by C20's
 `Determined` the structure is the one built directly, which is what the model builds). -/
-def parseHist : V → Option (GDesc × List HOp × Option String)
-  | .l [d, ops] => do pure (← GDesc.parse d, ← V.listOf? HOp.parse ops, none)
+def parseHist : V → Option (GDesc × List HOp × Option String × Option GDesc)
+  | .l [d, ops] => do pure (← GDesc.parse d, ← V.listOf? HOp.parse ops, none, none)
   | .l [d, ops, .a via] =>
     if viaKinds.contains via then
-      do pure (← GDesc.parse d, ← V.listOf? HOp.parse ops, some via)
+      do pure (← GDesc.parse d, ← V.listOf? HOp.parse ops, some via, none)
     else none
+  | .l [d, ops, .l [.a "from", src]] => do
+    let src ← GDesc.parse src
+    if !(["al", "am", "mx", "el"].contains src.repr) then none
+    pure (← GDesc.parse d, ← V.listOf? HOp.parse ops, none, some src)
   | _ => none
 
 def hEqPair : Handler := fun _ args obs =>
   match args with
   | [.a repr, ha, hb, m] => do
-    let (da, opsA, viaA) ← parseHist ha
-    let (db, opsB, viaB) ← parseHist hb
+    let (da, opsA, viaA, fromA) ← parseHist ha
+    let (db, opsB, viaB, fromB) ← parseHist hb
     if (viaA.isSome || viaB.isSome) && (repr == "wu" || repr == "wi") then none
+    if (fromA.any (·.repr == repr)) || (fromB.any (·.repr == repr)) then none
     let m ← HOp.parse m
     if da.repr != repr || db.repr != repr then none
     if !((m :: opsA ++ opsB).all (supported repr)) then none
     let obsHashEq : V := match obs with
       | .l [_, _, h] :: _ => h
       | _ => .a "?"
-    let model : Option (List V) ← match repr with
-      | "al" => some (modelPair viewAL AdjList.cmp (buildAL da) (buildAL db) opsA opsB m obsHashEq)
-      | "am" => some (modelPair viewAM AdjMap.cmp (buildAM da) (buildAM db) opsA opsB m obsHashEq)
-      | "mx" => some (modelPair viewMX AdjMatrix.cmp (buildMX da) (buildMX db) opsA opsB m obsHashEq)
-      | "el" => some (modelPair viewEL EdgeList.cmp (buildEL da) (buildEL db) opsA opsB m obsHashEq)
-      | "wu" | "wi" => some (modelPair viewW AdjListW.cmp (buildW da) (buildW db) opsA opsB m obsHashEq)
+    let st {σ : Type} (build : GDesc → Option σ) (conv : Nat → List (Nat × Nat) → Option σ)
+        (d : GDesc) (frm : Option GDesc) : St σ :=
+      match frm with
+      | some src => fromStart conv src
+      | none => St.ofOpt (build d)
+    let refusedBy {σ : Type} (x : St σ) : Bool := match x with | .refused => true | _ => false
+    let (model, refA, refB) : Option (List V) × Bool × Bool ← match repr with
+      | "al" =>
+        let (a, b) := (st buildAL Conv.toAL da fromA, st buildAL Conv.toAL db fromB)
+        some (modelPair viewAL AdjList.cmp a b opsA opsB m obsHashEq, refusedBy a, refusedBy b)
+      | "am" =>
+        let (a, b) := (st buildAM Conv.toAM da fromA, st buildAM Conv.toAM db fromB)
+        some (modelPair viewAM AdjMap.cmp a b opsA opsB m obsHashEq, refusedBy a, refusedBy b)
+      | "mx" =>
+        let (a, b) := (st buildMX Conv.toMX da fromA, st buildMX Conv.toMX db fromB)
+        some (modelPair viewMX AdjMatrix.cmp a b opsA opsB m obsHashEq, refusedBy a, refusedBy b)
+      | "el" =>
+        let (a, b) := (st buildEL Conv.toEL da fromA, st buildEL Conv.toEL db fromB)
+        some (modelPair viewEL EdgeList.cmp a b opsA opsB m obsHashEq, refusedBy a, refusedBy b)
+      | "wu" | "wi" =>
+        let (a, b) := (st buildW Conv.toWL da fromA, st buildW Conv.toWL db fromB)
+        some (modelPair viewW AdjListW.cmp a b opsA opsB m obsHashEq, refusedBy a, refusedBy b)
       | _ => none
     let modelOut := model.getD [V.a "panic"]
-    let propFail := oracle obs da db opsA opsB m
+    -- the description a `[from src]` side must denote is derived from the SOURCE (a conversion
+    -- preserves order and arcs), never taken from the line (a shrunk line may be inconsistent);
+    -- a side the model refuses has none: the implementation-only clauses judge it
+    let claimed (d : GDesc) (frm : Option GDesc) : GDesc := match frm with
+      | none => d
+      | some src => { repr := repr, verts := List.range src.order, order := src.order, arcs := src.arcs,
+                      warcs := src.arcs.map (fun a => (a.1, a.2, 1)) }
+    let propFail := oracle obs (claimed da fromA) (claimed db fromB) opsA opsB m (!refA) (!refB)
     let (eqTag, cmpTag, retTag) := match obs with
       | .l [eq, cmp, _] :: _ :: _ :: .l [_, ret, _, _] :: _ =>
         (if eq == V.ofBool true then "equal" else "differ", s!"cmp-{cmp}", s!"mut-{ret}")
+      | [.l [.a "refused", _]] => ("refused", "", "")
       | _ => ("?", "?", "?")
     let detour := (opsA ++ opsB).any (fun o => match o with | .rem .. | .tog .. => true | _ => false)
-    let tags := [repr, eqTag, cmpTag, retTag, sizeTag (min da.order 40)] ++ (if detour then ["detours"] else ["plain"])
+    let tags := ([repr, eqTag, cmpTag, retTag, sizeTag (min da.order 40)].filter (· != "")) ++ (if detour then ["detours"] else ["plain"])
+      ++ (if fromA.isSome || fromB.isSome then ["from-conversion"] else [])
       ++ (match viaA.orElse (fun _ => viaB) with
-          | none => ["direct"]
+          | none => if fromA.isSome || fromB.isSome then [] else ["direct"]
           | some v => if ["al", "am", "mx", "el"].contains v then ["via-conversion"]
                       else if ["complement", "converse", "union", "filter"].contains v then ["via-operation"]
                       else ["via-generator"])
@@ -153,8 +243,9 @@ def oracleCloneFrom (obs : List V) (dsrc : GDesc) (opsS : List HOp) (m : HOp) : 
 def hCloneFrom : Handler := fun _ args obs =>
   match args with
   | [.a repr, hd, hs, m] => do
-    let (dd, opsD, viaD) ← parseHist hd
-    let (ds, opsS, viaS) ← parseHist hs
+    let (dd, opsD, viaD, fromD) ← parseHist hd
+    let (ds, opsS, viaS, fromS) ← parseHist hs
+    if fromD.isSome || fromS.isSome then none
     let m ← HOp.parse m
     if dd.repr != repr || ds.repr != repr then none
     if !((m :: opsD ++ opsS).all (supported repr)) then none
